@@ -3,6 +3,7 @@
 -/
 import Rl2tp.Proofs.Frame
 import Rl2tp.Model.Message
+import Rl2tp.Proofs.Shrinks
 namespace Rl2tp
 
 /-- the two outcomes C01 allows: a value, or a non-empty list of errors -/
@@ -36,7 +37,9 @@ theorem decodeControlCore_good (w : UInt16) (s : Bytes) :
   · simp [h6, h7, Good]
   have hle : (word16 l1 l2).toNat - 12 ≤ body.length := by omega
   have hsub := inSub_ok (ε' := List DErr) (greedy : M Bytes DErr (List Res)) hle
-  simp only [h6, h7, if_false, hsub]
+  have hsb : (subM (word16 l1 l2).toNat 12 : M Bytes (List DErr) Nat) body = .ok ((word16 l1 l2).toNat - 12) body :=
+    subM_ok (by omega) body
+  simp only [h6, h7, if_false, hsb, hsub]
   obtain ⟨rs, r, hg, _⟩ := greedy_ok (body.take ((word16 l1 l2).toNat - 12))
   simp only [hg, subResult]
   by_cases hf : firstBad rs = true
@@ -126,10 +129,14 @@ theorem readBytes_pure_ne_fault (n : Nat) (e : ε) (g : Bytes → α) (s : Bytes
   | none => simp [readBytes, h]
   | some p => obtain ⟨b, r⟩ := p; simp [readBytes, h]
 
-theorem readDataPayload_noFault (initial : Nat) (w : UInt16) (h : DataHdr) :
-    NoFault (readDataPayload initial w h : M Bytes DErr Msg) := by
-  intro s f
+/-- the payload block never faults *provided the cursor has not grown since `initial` was taken* — the
+    fact `initial_length - reader.len()` silently relies on -/
+theorem readDataPayload_noFault (initial : Nat) (w : UInt16) (h : DataHdr) (s : Bytes) (hs : s.length ≤ initial)
+    (f : Fault) : (readDataPayload initial w h : M Bytes DErr Msg) s ≠ .fault f := by
   unfold readDataPayload
+  simp only [bind_apply, len_apply, len_bytes]
+  rw [subM_ok hs]
+  simp only []
   cases hm : h.mlen with
   | none =>
     simp only [bind_apply, len_apply, len_bytes, M.ite_apply, fail_apply]
@@ -140,9 +147,13 @@ theorem readDataPayload_noFault (initial : Nat) (w : UInt16) (h : DataHdr) :
     simp only [bind_apply, len_apply, len_bytes, M.ite_apply, fail_apply]
     split
     · simp
-    · split
+    · rw [subM_ok (by omega)]
+      simp only []
+      split
       · simp
-      · exact readBytes_pure_ne_fault _ _ _ _ _
+      · split
+        · simp
+        · exact readBytes_pure_ne_fault _ _ _ _ _
 
 theorem decodeData_noFault (w : UInt16) : NoFault (decodeData w : M Bytes DErr Msg) := by
   unfold decodeData
@@ -158,7 +169,10 @@ theorem decodeData_noFault (w : UInt16) : NoFault (decodeData w : M Bytes DErr M
     cases hs : (skipOffset h.off : M Bytes DErr Unit) r with
     | fault g => exact absurd hs (h2 g)
     | err => simp
-    | ok u r' => exact readDataPayload_noFault _ w h r' f
+    | ok u r' =>
+      have l1 := (readDataHeader_shrinks w).le s h r hh
+      have l2 := (skipOffset_shrinks h.off).le r u r' hs
+      exact readDataPayload_noFault _ w h r' (by simp only [len_bytes]; omega) f
 
 /-- `Message::try_read_validate` on the cursor: a value or a non-empty error list, never a fault -/
 theorem decode_good (o : Opts) (s : Bytes) : Good ((decode o : M Bytes (List DErr) Msg) s) := by
